@@ -457,8 +457,72 @@ def doc(model, proto, vals, parts, ctx, pipeline, detail, how=None, hist_seed=No
             "seed": ctx["seed"], "model_index": ctx["i"], "values_repr": repr(vals)[:1500]}
 
 
+def versioned_task(task, ybin, root):
+    """Reading a *previous version's* stream (C++ only): the conversions the newest reader applies to old values are part
+    of what a read delivers, and must not depend on how the items are read either.  A stream encoded under a previous
+    version's model (C05's version chains; at least a handful of items per stream step) is relayed to NDJSON by the newest
+    reader with CopyTo buffer sizes 1, 2, 3, 5 and 64; oracle: all relays that succeed emit the same lines as the relay with
+    buffer size 1, and none fails where that one succeeds."""
+    import importlib
+    C05 = importlib.import_module("checks.C05")
+    seed, i, quick = task["seed"], task["i"], task["tier"] == "quick"
+    rng = M.derive(seed, "c17v", i)
+    newest = C05.make_chain(rng.fork("chain"))
+    stats, viols, cases = {"models_with_cpp": 1, "versioned_models": 1}, [], []
+    model, old_models = C05.open_models(newest, ybin, root)
+    try:
+        try:
+            cm = C.CppModel(model.dir)
+        except C.GeneratedCodeDoesNotCompile:
+            stats["generated_cpp_did_not_compile(discarded)"] = 1
+            return {"stats": stats, "violations": [], "cases": [], "samples": []}
+        ns = newest.namespace
+        for label, (old_pkg, old_env, old_schemas) in old_models.items():
+            for proto in model.protocols():
+                old_proto = old_pkg.find(proto.name)
+                if old_proto is None or proto.name not in old_schemas or viols:
+                    continue
+                for rep in range(2 if quick else 6):
+                    r = rng.fork(label, proto.name, rep)
+                    vals = sw.gen_values(old_env, ns, old_proto, r, finite=True, items=(5, 12))
+                    data = R.Codec(old_env).encode_stream(old_proto, ns, old_schemas[proto.name], vals, sw.gen_partitions(old_proto, vals, r))
+                    nb = cm.copyto[proto.name]
+                    sizes = [1, 2, 3, 5, 64]
+                    runs = [{"proto": proto.name, "op": "relay", "in_fmt": "binary", "out_fmt": "ndjson", "input": 0, "batch": [b] * nb} for b in sizes]
+                    results = cm.run_plan([data], runs, timeout=240)
+                    stats["runs"] = stats.get("runs", 0) + len(runs)
+                    base = results[0]
+                    if base is None or base.get("crashed") or not base.get("ok"):
+                        stats["previous_version_stream_not_readable(C05's business, skipped)"] = stats.get("previous_version_stream_not_readable(C05's business, skipped)", 0) + 1
+                        continue
+                    stats["cpp_previous_version_streams"] = stats.get("cpp_previous_version_streams", 0) + 1
+                    for b, res in zip(sizes[1:], results[1:]):
+                        if res is None:
+                            continue
+                        d = {"kind": "c17v", "pkg": sw.pack_pkg(model.pkg), "files": M.render_tree(model.pkg, ""), "protocol": proto.name, "version": label, "payload_hex": data.hex(),
+                             "seed": seed, "model_index": i, "batch": b}
+                        if res.get("crashed") or not res.get("ok"):
+                            viols.append(({"class": "items_depend_on_read_batching", "lang": "cpp", "format": "binary(previous version)"},
+                                          dict(d, detail="CopyTo with buffer size %d fails (%s) where buffer size 1 succeeds" % (b, str(res.get("what") or res.get("stderr", ""))[:200]))))
+                            break
+                        if res["out"] != base["out"]:
+                            a, c = bytes.fromhex(base["out"]).decode("utf-8", "replace").split("\n"), bytes.fromhex(res["out"]).decode("utf-8", "replace").split("\n")
+                            k = next((j for j, (x, y) in enumerate(zip(a, c)) if x != y), min(len(a), len(c)))
+                            viols.append(({"class": "items_depend_on_read_batching", "lang": "cpp", "format": "binary(previous version)"},
+                                          dict(d, detail="line %d differs between CopyTo buffer sizes 1 and %d: %s | %s" % (k, b, (a[k] if k < len(a) else "<none>")[:160], (c[k] if k < len(c) else "<none>")[:160]))))
+                            break
+                    if viols:
+                        break
+                cases.append((["c17v", i, proto.name, label], True))
+    finally:
+        model.close()
+    return {"stats": stats, "violations": viols, "cases": cases, "samples": [{"model_index": i, "versioned": True}]}
+
+
 def model_task(task, ybin, root):
     seed, i, quick = task["seed"], task["i"], task["tier"] == "quick"
+    if i % 4 == 2:
+        return versioned_task(task, ybin, root)
     rng = M.derive(seed, "c17", i)
     want_cpp = (i % 4 == 0) if quick else (i % 2 == 0)
     cfg = M.GenConfig.swarm(rng.fork("cfg"))
@@ -520,6 +584,19 @@ def model_task(task, ybin, root):
 
 
 def replay_doc(doc_, ybin, root):
+    if doc_.get("kind") == "c17v":
+        import importlib
+        C05 = importlib.import_module("checks.C05")
+        model, _ = C05.open_models(sw.unpack_pkg(doc_["pkg"]), ybin, root)
+        try:
+            cm = C.CppModel(model.dir)
+            nb = cm.copyto[doc_["protocol"]]
+            runs = [{"proto": doc_["protocol"], "op": "relay", "in_fmt": "binary", "out_fmt": "ndjson", "input": 0, "batch": [b] * nb} for b in (1, doc_["batch"])]
+            base, res = cm.run_plan([bytes.fromhex(doc_["payload_hex"])], runs, timeout=240)
+            bad = res is None or res.get("crashed") or not res.get("ok") or res["out"] != base["out"]
+            return bool(bad), "relays with buffer sizes 1 and %d %s" % (doc_["batch"], "differ" if bad else "agree")
+        finally:
+            model.close()
     pkg = sw.unpack_pkg(doc_["pkg"])
     want_cpp = doc_["pipeline"].startswith("cpp")
     model = P.PyModel(pkg, ybin, root, want_cpp=want_cpp, cpp_opts=C.CPP_OPTS)
@@ -609,7 +686,7 @@ def main():
                stubbed="C++: nd-array header (cpp.overrideArrayHeader) and date/date.h are verification stubs; harness main emitted from the generated protocols.h",
                assumptions=["reference codec per docs/reference, with int8/uint8 as one raw byte"],
                replay_fn=replay_doc, quick_budget=150,
-               fault_keys=("value_straddles_refill", "empty_write_call", "generator_path", "list_path", "tuple_path", "sized_iterable_path(deque, dict view)", "one_shot_iterator_path(iter, map)", "numpy_array_as_iterable", "producer_reusing_one_object", "items_handed_over_in_a_reused_object", "block_end_on_buffer_boundary", "cpp_relay", "cpp_script", "cpp_ndjson_relay", "cpp_ndjson_script", "cpp_cppnd_relay", "cpp_cppnd_script", "py_write_histories"))
+               fault_keys=("value_straddles_refill", "empty_write_call", "generator_path", "list_path", "tuple_path", "sized_iterable_path(deque, dict view)", "one_shot_iterator_path(iter, map)", "numpy_array_as_iterable", "producer_reusing_one_object", "items_handed_over_in_a_reused_object", "cpp_previous_version_streams", "block_end_on_buffer_boundary", "cpp_relay", "cpp_script", "cpp_ndjson_relay", "cpp_ndjson_script", "cpp_cppnd_relay", "cpp_cppnd_script", "py_write_histories"))
 
 
 if __name__ == "__main__":
